@@ -4,6 +4,7 @@ import (
 	"encoding/json"
 	"fmt"
 	"io"
+	"net/http"
 	"net/http/httptest"
 	"regexp"
 	"sort"
@@ -178,10 +179,11 @@ type monitors struct {
 	// C06: (cid + " " + rid as the client spells it) -> id of the last service request issued before
 	// the trigger; the re-check is over when an access answer to a later request arrives
 	recheck   map[string]recheckState
-	httpEnded map[string]int  // cid of a temporary connection -> direct meta status that ended its request
-	curEvent  string          // resource name of the event published in this step ("" otherwise)
-	pubStep   map[string]int  // resource name + "#" + sequence number of a custom event -> step of its publication
-	gone      map[string]bool // disconnected cids
+	httpHdr   map[string][]metaHdr // cid of a temporary connection -> meta headers its answers carried, in order
+	httpEnded map[string]int       // cid of a temporary connection -> direct meta status that ended its request
+	curEvent  string               // resource name of the event published in this step ("" otherwise)
+	pubStep   map[string]int       // resource name + "#" + sequence number of a custom event -> step of its publication
+	gone      map[string]bool      // disconnected cids
 	reqOwner  map[int]string
 	// C04-C06 bookkeeping: latest access verdict per (cid, resource name?query)
 	grants  map[string]*grantState
@@ -198,6 +200,11 @@ type grantState struct {
 	// for one resource can be outstanding and be answered differently; either answer is a grant
 	// the gateway may hold.
 	alts []grantAlt
+}
+
+type metaHdr struct {
+	name   string
+	values []string
 }
 
 type recheckState struct {
@@ -769,6 +776,30 @@ func (m *monitors) onRequest(l mqLog) {
 }
 
 func (m *monitors) onAnswer(r *mockReq, label string, data []byte, err error) {
+	if data != nil && isHTTPReq(r) {
+		// C17: headers a service puts into the meta object of an answer to an HTTP request
+		var a struct {
+			Meta *struct {
+				Header map[string][]string `json:"header"`
+			} `json:"meta"`
+		}
+		var p struct {
+			CID string `json:"cid"`
+		}
+		if json.Unmarshal(data, &a) == nil && a.Meta != nil && json.Unmarshal(r.payload, &p) == nil {
+			if m.httpHdr == nil {
+				m.httpHdr = map[string][]metaHdr{}
+			}
+			keys := make([]string, 0, len(a.Meta.Header))
+			for k := range a.Meta.Header {
+				keys = append(keys, k)
+			}
+			sort.Strings(keys)
+			for _, k := range keys {
+				m.httpHdr[p.CID] = append(m.httpHdr[p.CID], metaHdr{name: k, values: a.Meta.Header[k]})
+			}
+		}
+	}
 	if i := strings.Index(label, "|meta="); i >= 0 {
 		if st, e := strconv.Atoi(label[i+6:]); e == nil && st >= 300 && st < 600 {
 			// C17: a direct status ends the HTTP request: no further service request for it
@@ -1044,6 +1075,37 @@ func (w *world) drainedChecks() {
 
 // onHTTP: monitors over HTTP answers (C16/C17): the body is well-formed JSON; error statuses follow the table.
 func (m *monitors) onHTTP(h *httpReq) {
+	// C17: service headers are merged into the response, except that they never replace the
+	// protected ones; Set-Cookie values accumulate
+	for real, name := range m.w.cidName {
+		if name != h.conn {
+			continue
+		}
+		got := h.rec.Header()
+		var cookies []string
+		for _, mh := range m.httpHdr[real] {
+			canon := http.CanonicalHeaderKey(mh.name)
+			switch canon {
+			case "Content-Type", "Access-Control-Allow-Origin", "Access-Control-Allow-Credentials":
+				for _, v := range mh.values {
+					for _, g := range got[canon] {
+						if g == v {
+							m.w.addViolation("C17", "protected-header-replaced", fmt.Sprintf("HTTP response %s carries %s: %s taken from a service's meta header", h.name, canon, v))
+						}
+					}
+				}
+			case "Set-Cookie":
+				cookies = append(cookies, mh.values...)
+			default:
+				if strings.Join(got[canon], ",") != strings.Join(mh.values, ",") {
+					m.w.addViolation("C17", "meta-header-not-merged", fmt.Sprintf("HTTP response %s has %s: %q, the service's meta header said %q", h.name, canon, got[canon], mh.values))
+				}
+			}
+		}
+		if len(cookies) > 0 && strings.Join(got["Set-Cookie"], ",") != strings.Join(cookies, ",") {
+			m.w.addViolation("C17", "set-cookie-not-accumulated", fmt.Sprintf("HTTP response %s has Set-Cookie %q, the services sent %q", h.name, got["Set-Cookie"], cookies))
+		}
+	}
 	body := strings.TrimSpace(h.rec.Body.String())
 	if body != "" && !json.Valid([]byte(body)) {
 		m.w.addViolation("C16", "malformed-body", "HTTP response body is not well-formed JSON: "+body)
